@@ -103,7 +103,12 @@ class Interp:
         if name in self.inputs:
             return self.inputs[name](index)
         if name in self.products:
-            return self._product(self.products[name][0], index)
+            terms, herm = self.products[name]
+            if herm and i > j:
+                # a product declared `hermitian` has its lower blocks defined as the adjoint of the upper ones
+                # (same convention as the hermitian marker of a series)
+                return self.adj(self.elem(name, (j, i) + n))
+            return self._product(terms, index)
         start, stmts = self.series[name]
         if sum(n) == 0 and start is not None:
             if start == 0:
